@@ -160,11 +160,24 @@ func genGram(t *rapid.T) GramCase {
 				f[name] = v
 				return v
 			}
+			// RFC 5424: HOSTNAME, APP-NAME, PROCID and MSGID are NILVALUE ("-") or 1*PRINTUSASCII - any
+			// printable characters but the space, so "-bash", "a-b", "[x]" or "--" are names, only a lone "-" is nil
+			word := func(name, label string, vals []string) string {
+				if rapid.IntRange(0, 2).Draw(t, label+"/free") > 0 {
+					return opt(name, label, vals)
+				}
+				v := rapid.StringMatching(`[-a-c0-1._\[\]="@/]{1,5}`).Draw(t, label+"/word")
+				if v == "-" {
+					return "-"
+				}
+				f[name] = v
+				return v
+			}
 			ts := opt("timestamp", "ts", []string{"2003-10-11T22:14:15.003Z", "2003-08-24T05:14:15.000003-07:00", "1985-04-12T23:20:50.52Z"})
-			host := opt("hostname", "host", []string{"mymachine.example.com", "h", "10.0.0.1"})
-			app := opt("app_name", "app", []string{"myproc", "su", "evntslog"})
-			proc := opt("process_id", "proc", []string{"10", "8710", "p1"})
-			mid := opt("message_id", "mid", []string{"ID47", "m"})
+			host := word("hostname", "host", []string{"mymachine.example.com", "h", "10.0.0.1"})
+			app := word("app_name", "app", []string{"myproc", "su", "evntslog"})
+			proc := word("process_id", "proc", []string{"10", "8710", "p1"})
+			mid := word("message_id", "mid", []string{"ID47", "m"})
 			text := fmt.Sprintf("<%d>1 %s %s %s %s %s -", pri, ts, host, app, proc, mid)
 			if rapid.Bool().Draw(t, "hasmsg") {
 				msg := genText(t, "msg", "")
